@@ -34,6 +34,11 @@ static bool ints(const Toks& t, size_t from, size_t n, int64_t* v) {
   for (size_t i = 0; i < n; ++i) if (!toI64(t[from + i], &v[i])) return false;
   return true;
 }
+static bool intsAt(const Toks& t, size_t from, size_t n, int64_t* v) {
+  if (t.size() < from + n) return false;
+  for (size_t i = 0; i < n; ++i) if (!toI64(t[from + i], &v[i])) return false;
+  return true;
+}
 template <typename CT> static std::string fieldsStr(const CT& c) {
   char b[200];
   snprintf(b, sizeof b, "%" PRId64 " %d %d %d %d %d", (int64_t)c.year(), c.month(), c.day(), c.hour(), c.minute(), c.second());
